@@ -117,6 +117,11 @@ def gen_window(rng, case):
     pick = lambda: rng.choice(days) + rng.choice([0, 0, 0, 1, -1, 30, -30, 183])  # noqa: E731
     if kind < 2:
         return (None, None)
+    # reversal points: a row whose own (local) day is LATER than the day of the row that follows it in time (mixed UTC offsets)
+    rows = sorted(case["ins"] + case["outs"] + case["intras"], key=lambda r: r["ts"][0])
+    rev = [hist.local_day(x["ts"]) for x, y in zip(rows, rows[1:]) if hist.local_day(y["ts"]) < hist.local_day(x["ts"])]
+    if rev and kind < 4 and rng.chance(60):
+        return (rng.choice(rev), None)       # the earlier row is inside the window, the later one (dated the day before) is not
     if kind < 4:
         return (max(0, pick()), None)
     if kind < 6:
